@@ -236,8 +236,39 @@ def run():
             chk.violation({"clause": v["clause"], "how": "stdin", "type": gm["type"]}, {"stdin": gm},
                           "%s documents (%s): '%s' gives %s %s, but '%s' gave %s" % (
                               gm["type"], "equal" if gm["same"] else "different", o["how"], o["v"], o["exc"][-120:], obs[0]["how"], obs[0]["v"]))
+    # ---- (e) the same bytes given twice, read as two DIFFERENT types: each file is parsed as the type given for it ----
+    same = {("json", "yaml"): b'{"n": 1e3, "t": [1, "yes", null], "s": "x"}', ("yaml", "json"): b'{"n": 1e3, "t": [1, "no", null]}',
+            ("json5", "yaml"): b'{"n": 1e3, "u": "on"}', ("json", "json5"): b'{"a": [1, 2.0]}', ("yaml", "json5"): b'{"k": 1e2, "v": "y"}',
+            ("json", "csv"): b'[1, 2]', ("xml", "html"): b"<html><body><p>x</p></body></html>", ("html", "xml"): b"<html><body><p>x</p><br/></body></html>"}
+    egroups, emeta = [], []
+    _cli._init()
+    for (ft_, tt_), content in sorted(same.items()):
+        for how in ("copy", "same path"):
+            fa = mats.file(content, ".dat", "e1")
+            fb = fa if how == "same path" else mats.file(content, ".dat", "e2")
+            lib = _lib_job({"lib": (fa, fb, ft_, tt_, docs.ALL_OPTS[0], False, False)})
+            rec = _cli.execute([{"argv": [fa, fb, "--no-status", "--no-color", "--from-%s" % ft_, "--to-%s" % tt_], "from": fa, "to": fb,
+                                 "cfg": _cli.base_cfg()}])[0]
+            obs = [{"k": "same-bytes|%s|%s" % (ft_, tt_), "v": lib["v"], "raised": lib["raised"], "how": "library", "exc": lib["exc"]},
+                   {"k": "same-bytes|%s|%s" % (ft_, tt_), "v": "%s/%s" % (rec["out_digest"], rec["rc"]), "raised": bool(rec["exc"]),
+                    "how": "cli --from-%s --to-%s (%s)" % (ft_, tt_, how), "exc": rec["exc"]}]
+            egroups.append(obs)
+            emeta.append({"from": ft_, "to": tt_, "how": how, "content": content.decode()})
+    everdicts, est = functional.validate_groups(egroups, name="C14-samebytes")
+    chk.add_trace_stats(est, "FunctionalTrace", sum(len(g) for g in egroups))
+    for gm, obs, v in zip(emeta, egroups, everdicts):
+        for o in obs:
+            chk.count(("same-bytes", gm["from"], gm["to"], gm["how"], o["how"]))
+        if v["v"] != "ACCEPT":
+            o = obs[v["step"] - 1]
+            chk.violation({"clause": v["clause"], "how": "same-bytes", "types": gm["from"] + ">" + gm["to"]}, {"same_bytes": gm},
+                          "the bytes %r given twice (%s) as %s and as %s: '%s' gives %s %s, but '%s' gave %s" % (
+                              gm["content"][:60], gm["how"], gm["from"], gm["to"], o["how"], o["v"], o["exc"][-100:], obs[0]["how"], obs[0]["v"]))
     functional.model_check(chk)
     _cli.model_check(chk)
+    # the writer between the command and its real standard output while status output is on (L2 model: spec/Status.tla)
+    from props import _status
+    _status.check(chk, t)
     chk.rule = ("cases = (c) points of the type-selection space {none, --S-TYPE, --S-mime} x type x file-name extension "
                 "{8 types, none} for both files (23 409 points enumerated by TLC, %s), each a real run of main() with the "
                 "loaders wrapped; (a)/(b) %d pairs of files x option sets, each observed through the library pipeline and "
